@@ -1439,6 +1439,9 @@ def branch_shapes(fn, pinfn):
         return bool(_test_spellings(e) & pin_tests)
 
     def visit(body, in_loop, at_function_end):
+        # in_loop here means: falling off the end of this block ends the current iteration of the enclosing loop (the block is the
+        # loop body, or a branch of an if that is the last statement of such a block) - only then is `continue` the same as
+        # skipping the rest of the block
         nonlocal done
         i = 0
         while i < len(body):
@@ -1486,7 +1489,8 @@ def branch_shapes(fn, pinfn):
                 sub = getattr(st, fld, None)
                 if isinstance(sub, list) and sub and isinstance(sub[0], ast.stmt):
                     loop = isinstance(st, (ast.For, ast.While)) and fld == 'body'
-                    visit(sub, loop or (in_loop and not isinstance(st, (ast.For, ast.While))), at_function_end and i == len(body) - 1 and isinstance(st, ast.If))
+                    last_if = i == len(body) - 1 and isinstance(st, ast.If)
+                    visit(sub, loop or (in_loop and last_if), at_function_end and last_if)
             for h in getattr(st, 'handlers', []) or []:
                 visit(h.body, in_loop, False)
             i += 1
